@@ -92,20 +92,31 @@ Theorem C08_registry_fastpath_refuted :
 Proof. exact registry_fastpath_refuted. Qed.
 Print Assumptions C08_registry_fastpath_refuted.
 
-(* byteslicepool (Get / append / Resize / Put): for EVERY initial memory content, every schedule
-   by any number of callers in which no caller SHRINKS its slice with Resize, and every choice of
-   sync.Pool, the bytes a caller sees through its slice are exactly the bytes it appended itself
-   since its Get, with zeroes where it grew the slice with Resize. *)
-Theorem C08_byteslicepool_no_carry : forall mincap, no_carry mincap.
+(* byteslicepool (Get / append / Resize / Put), current tree (Get clears the whole capacity of a
+   recycled slice): for EVERY initial memory content, EVERY schedule by any number of callers -
+   including callers that shrink their slice before putting it back - and every choice of
+   sync.Pool, each byte a caller sees through its slice is zero or a byte it wrote itself since its
+   Get. *)
+Theorem C08_byteslicepool_no_carry : forall mincap h0 es s t x,
+  brun Fixed mincap (binit h0) es = Some s ->
+  In x (visible s t) -> x = 0%N \/ In x (written t es []).
 Proof. exact byteslicepool_no_carry. Qed.
 Print Assumptions C08_byteslicepool_no_carry.
 
-(* Without that restriction it is false of the tree as it is: Get clears a recycled slice only up
-   to the length it was Put with, so a caller that appended [7;7;7], shrank to length 1 and Put
-   the slice leaves 7;7 behind, and the next caller's Get + Resize(3) sees [0;7;7]. *)
+(* ... and as long as no caller shrinks its slice (before and after the fix) it sees EXACTLY what
+   it appended, with zeroes where it grew the slice with Resize. *)
+Theorem C08_byteslicepool_exact : forall v mincap h0 es s t,
+  brun v mincap (binit h0) es = Some s -> grows_only v mincap (binit h0) es ->
+  visible s t = appended t es [].
+Proof. exact byteslicepool_exact. Qed.
+Print Assumptions C08_byteslicepool_exact.
+
+(* The code before the fix cleared a recycled slice only up to the length it was Put with: a
+   caller that appended [7;7;7], shrank to length 1 and Put the slice left 7;7 behind, and the next
+   caller - which has written nothing - saw [0;7;7] after Get + Resize(3). *)
 Theorem C08_byteslicepool_shrink_put_refuted :
-  exists mincap es s, brun mincap (binit (fun _ _ => 0%N)) es = Some s /\
-                      visible s 1 = [0; 7; 7]%N /\ appended 1 es [] = [0; 0; 0]%N.
+  exists mincap es s, brun Original mincap (binit (fun _ _ => 0%N)) es = Some s /\
+                      visible s 1 = [0; 7; 7]%N /\ written 1 es [] = [].
 Proof. exact byteslicepool_shrink_put_refuted. Qed.
 Print Assumptions C08_byteslicepool_shrink_put_refuted.
 
